@@ -182,6 +182,24 @@ def chunk_hexlike(job):
     return n, out
 
 
+COMPONENTS = ["1", "50%", "120deg", "120px", "1e", "0.5turn", "-1", "+1", "abc", "", "1 2", "calc(1)", "var(--x)", "1/2", "nan", "inf",
+              "1e999", "\u0661", "0x10", "1.", ".5", "100%%", "#1", "none"]
+TEMPLATES = ["hsl(%s, %s, %s)", "rgb(%s, %s, %s)", "hsl(%s %s %s)", "rgba(%s, %s, %s, 0.5)", "hsla(%s, %s, %s, 0.5)", "%s, %s, %s", "(%s, %s, %s)"]
+
+
+def chunk_templates(job):
+    """Complete functional notations whose components come from a near-miss alphabet (full product per template)."""
+    tmpl, first = job
+    out, n = [], 0
+    for b in COMPONENTS:
+        for c in COMPONENTS:
+            n += 1
+            vs = judge_value(tmpl % (first, b, c))
+            if vs and len(out) < 8:
+                out += vs
+    return n, out
+
+
 def chunk_seqs(job):
     prefix, depth = job
     out, n = [], 0
@@ -225,6 +243,14 @@ def run(ctx):
     ctx.sub("strings", states=n + k, transitions=n + k, evaluations=n + k, traces=n + k, distinct_nontrivial=n + k, exhaustive=True, max_tokens=smax)
     ctx.sample({"subcheck": "string", "value": "rgb(255,%"})
     ctx.sample({"subcheck": "string", "value": "hsla(nan 0.5"})
+    tj = [(t, a) for t in TEMPLATES for a in COMPONENTS]
+    tn = 0
+    for cnt, vs in ctx.pmap(chunk_templates, tj, chunksize=4):
+        tn += cnt
+        ctx.add_violations(vs)
+    ctx.sub("functional_templates_x_near_miss_components", states=tn, transitions=tn, evaluations=tn, traces=tn, distinct_nontrivial=tn, exhaustive=True,
+            templates=TEMPLATES, components=len(COMPONENTS))
+    ctx.sample({"subcheck": "template", "value": "hsl(120px, 50%, 1e)"})
     hj = [(c, 6) for c in HEXCHARS]
     hn = 0
     for cnt, vs in ctx.pmap(chunk_hexlike, hj):
